@@ -214,6 +214,8 @@ def check_refresh_aggregates(ctx, ra, R):
     res = w.walk(ra)
     rets = [r for r in res if r.kind == "return"]
     backs = [r for r in res if r.kind == "backedge"]
+    if len(rets) >= 1 and len(backs) == 0:
+        return check_refresh_by_sum(ctx, rets, R)
     if len(rets) < 1 or len(backs) < 1:
         return False, "refresh_aggregates has no loop/return structure (%d returns, %d iterations)" % (len(rets), len(backs))
     selfobj = ("obj", ("param", 1))
@@ -269,6 +271,45 @@ def check_refresh_aggregates(ctx, ra, R):
             if not okq:
                 return False, "accumulator for %s adds %s, which is not the %s quantity of the iterated order" % (fld, short(elem_q), role)
     return True, "fold over self.orders: visible/hidden accumulators from 0 by saturating_add(display/reserve), count = len"
+
+
+def check_refresh_by_sum(ctx, rets, R):
+    """accepted idiom B: self.<agg> = self.orders.iter().map(|o| o.<accessor>()).sum(); order_count = orders.len()"""
+    selfobj = ("obj", ("param", 1))
+    want = {"visible_quantity": "display", "hidden_quantity": "reserve"}
+    for r in rets:
+        st = r.state
+        cnt = st.heap.get((selfobj, (("f", None, "order_count"),)))
+        if not (isinstance(cnt, tuple) and cnt[0] == "call" and cnt[1].endswith("len") and "orders" in short(cnt)):
+            return False, "self.order_count is not orders.len() (got %s)" % short(cnt)
+        for fld, role in want.items():
+            v = st.heap.get((selfobj, (("f", None, fld),)))
+            if not (isinstance(v, tuple) and v[0] == "call" and v[1].endswith("sum")):
+                return False, "self.%s is neither a loop-carried accumulator nor an iterator sum (got %s)" % (fld, short(v))
+            if "orders" not in short(v) or ".rev" in short(v):
+                return False, "self.%s sums over %s, not over self.orders" % (fld, short(v)[:120])
+            clos = [t for t in subterms(v) if isinstance(t, tuple) and t[0] == "agg" and isinstance(t[1], str) and t[1].startswith("closure:")]
+            if len(clos) != 1:
+                return False, "self.%s: expected one mapping closure" % fld
+            cb = ctx.db.bodies.get(clos[0][1][len("closure:"):])
+            okc = cb is not None
+            if okc:
+                for rc in ctx.walker(max_depth=3).walk(cb):
+                    if rc.kind != "return":
+                        continue
+                    val = rc.value
+                    vs = [a[2] for a, p in rc.facts.order if a[0] == "variant" and a[2] in R.variants]
+                    if not vs:
+                        okc = False
+                        continue
+                    f = (R.display if role == "display" else R.reserve)[vs[0]]
+                    if f is None:
+                        okc = okc and val == Int(0)
+                    else:
+                        okc = okc and isinstance(val, tuple) and val[0] == "field" and val[2] == vs[0] and val[3] == f
+            if not okc:
+                return False, "self.%s does not sum the %s quantity of each order" % (fld, role)
+    return True, "iterator sums over self.orders of display/reserve, count = len"
 
 
 def constructor_site_ok(L, r, t, ra):
